@@ -6,7 +6,7 @@
  * which dispatches to it. */
 #include "verif.h"
 #include "gen.h"
-#define SIP_MAXLEN 24
+#define SIP_MAXLEN (8 * (FIX_LEN / 8 + 1))
 #include "siphash_spec.h"
 
 uint64_t c_siphash(const uint8_t* key, const uint8_t* m, uint64_t len)
